@@ -312,6 +312,15 @@ func (x *Exec) builtin(st *State, fr *Frame, name string, cc *ssa.CallCommon, ar
 
 func (x *Exec) appendOp(st *State, fr *Frame, cc *ssa.CallCommon, args []Value, instr ssa.Instruction) []Outcome {
 	e := x.enc
+	if l, ok := args[0].(ListV); ok {
+		nl := ListV{Elems: append([]Value(nil), l.Elems...)}
+		if l2, ok := args[1].(ListV); ok {
+			nl.Elems = append(nl.Elems, l2.Elems...)
+		} else {
+			nl.Elems = append(nl.Elems, args[1])
+		}
+		return []Outcome{{st: st, vals: []Value{nl}}}
+	}
 	a := x.asTV(st, args[0])
 	if a.Ty == nil {
 		a.Ty = cc.Args[0].Type()
@@ -762,6 +771,10 @@ func (c *cenv) Lookup(name string, old bool) (SV, bool) {
 		return SV{T: x.blockTime(), Sort: "Int"}, true
 	case "height":
 		return SV{T: x.blockHeight(), Sort: "Int"}, true
+	}
+	// a local variable that is not (yet) defined on this path: unconstrained
+	if t, ok := x.localTypes[name]; ok && !old {
+		return x.toSV(st, x.freshTV("undef_"+name, t, nil))
 	}
 	// package-level sentinel error or constant
 	if c.pkg != nil {
